@@ -66,4 +66,14 @@ var vPrefixes = []string{
 	"JSIGHT 0.3\nURL /a\n  GET\n    200 any\n  GET\n",   // 61 same method twice
 	"JSIGHT 0.3\nGET /a/{id}/{id",                        // 62 duplicated path parameter
 	"JSIGHT 0.3\nMACRO @m\n(\n  PASTE @m\n)\nPASTE @",    // 63
+	"JSIGHT 0.3\nTYPE @r regex\n/a/\nTYPE @y any\nTYPE @j\n{}\nGET /p/{id}\n  200 any\n  Path\n  @",                 // 64 Path body = a type reference
+	"JSIGHT 0.3\nTYPE @r regex\n/a/\nTYPE @y any\nGET /p/{id}\n  200 any\n  Path\n  {\"id\": @",                       // 65 Path property = a type reference
+	"JSIGHT 0.3\nTYPE @r regex\n/a/\nTYPE @y any\nGET /h\n  200 any\n    Headers\n    @",                              // 66 Headers body = a type reference
+	"JSIGHT 0.3\nTYPE @r regex\n/a/\nTYPE @y any\nGET /q\n  200 any\n  Query\n  @",                                     // 67 Query body = a type reference
+	"JSIGHT 0.3\nTYPE @r regex\n/a/\nTYPE @y any\nTYPE @t\n{ // {allOf: \"@",                                        // 68 allOf naming a non-object type
+	"JSIGHT 0.3\nTYPE @r regex\n/a/\nTYPE @y any\nPOST /b\n  200 any\n  Request @",                                    // 69 Request naming a type
+	"JSIGHT 0.3\nTYPE @r regex\n/a/\nTYPE @y any\nURL /j\n  Protocol json-rpc-2.0\n  Method m\n    Params\n    @",    // 70 Params body = a type reference
+	"JSIGHT 0.3\nTAG @t\nTAG @u\nGET /a\n  200 any\n  Tags @t @",                                                  // 71 a second (possibly repeated / unknown) tag
+	"JSIGHT 0.3\nURL /j\n  Protocol json-rpc-2.0\n  TAG @t\n  Method m\n    Params\n    {}\n    Tags @",          // 72 Tags of a JSON-RPC method
+	"JSIGHT 0.3\nSERVER @s\n  BaseUrl \"h\"\nSERVER @",                                                              // 73 a second server name
 }
